@@ -72,8 +72,8 @@ def crosscheck_oracles(runs):
     by_file = {}
     for r in runs:
         for uid, u in r.units.items():
-            if u.get('replay'):
-                by_file.setdefault(u['file'], []).append((re.sub(r'\W+', '_', uid), u['replay']))
+            for n_, (pat, lines) in enumerate(u.get('replay') or []):
+                by_file.setdefault(u['file'], []).append((re.sub(r'\W+', '_', uid) + ('_%d' % n_ if n_ else ''), lines))
     results = []
     if not by_file:
         return results
@@ -117,8 +117,11 @@ def make_replay(pid, n, o, runs):
     snippet, unit_file = None, None
     for r in runs:
         if r.name == o['vspec'] and o['unit'] in r.units and r.units[o['unit']].get('replay'):
-            snippet = r.units[o['unit']]['replay']
-            unit_file = r.units[o['unit']]['file']
+            for pat, lines in r.units[o['unit']]['replay']:
+                if not pat or re.search(pat, o['kind'] + ' ' + o['statement']):
+                    snippet = lines
+                    unit_file = r.units[o['unit']]['file']
+                    break
     path = os.path.join(VERIF, 'replay', base + ('.rs' if snippet else '.txt'))
     if snippet and not os.environ.get('VERIF_NO_REPLAY'):
         t0 = time.time()
